@@ -4,13 +4,12 @@ import asyncio
 from typing import Any, AsyncIterator, Iterable, Mapping
 
 from redis.asyncio import BlockingConnectionPool
-from redis.asyncio.client import Pipeline
 
 from cashews._typing import Key, Value
 from cashews.backends.interface import Backend
 from cashews.serialize import DEFAULT_SERIALIZER, Serializer
 
-from .client import Redis, SafePipeline, SafeRedis
+from .client import Redis, SafePipeline, SafeRedis, UnsafePipeline
 
 _UNLOCK = """
 if redis.call("GET", KEYS[1]) == ARGV[1] then
@@ -70,7 +69,7 @@ class _Redis(Backend):
         self._sha: dict[str, Any] = {}
         if not suppress:
             self._client_class = Redis
-            self._pipeline_class = Pipeline
+            self._pipeline_class = UnsafePipeline
         else:
             self._pipeline_class = SafePipeline
             self._client_class = SafeRedis
